@@ -577,13 +577,29 @@ func TestMalformedJWK(t *testing.T) {
 // ---- malformed compact strings --------------------------------------------------------------------------
 
 func TestMalformedCompact(t *testing.T) {
-	ev.Rule(chkJunk, "rapid: arbitrary strings, 1/2/4-segment strings, bad base64 in each segment, header that is not a JSON object / lacks alg / has a non-string alg / a non-boolean b64, empty payload, empty signature, JSON serialization instead of compact, each paired with a well-formed JWK of a drawn type; oracle: error, never a panic, never acceptance; non-trivial = every case")
+	ev.Rule(chkJunk, "rapid: arbitrary strings, 1/2/4-segment strings, bad base64 in each segment, header that is not a JSON object / lacks alg / has a non-string alg / a non-boolean b64 (the headers without alg and with a non-boolean b64 are re-signed by the genuine key over both candidate signing inputs, so only the header defect can be the reason for refusal; a non-string alg is not among the defects the statement names and keeps the stale signature), empty payload, empty signature, JSON serialization instead of compact, each paired with a well-formed JWK of a drawn type; oracle: error, never a panic, never acceptance; non-trivial = every case")
 	ev.Rapid(t, chkJunk, 1500, 15000, func(t *rapid.T) {
 		kt := rapid.SampledFrom(keys.AllTypes).Draw(t, "keyType")
 		k := keys.Get(kt, "c09m", 1)
 		g, _ := build(k, "asm", "", nil, []byte(`{"a":1}`))
 		parts := strings.Split(g.compact, ".")
-		hdr := func(s string) string { return asm.B64([]byte(s)) + "." + parts[1] + "." + parts[2] }
+		payload := []byte(`{"a":1}`)
+		// the malformed header is paired with a signature that is genuine for that very header (over the base64url
+		// payload, or over the raw payload for the b64 cases), so that only the header defect can be the reason
+		// for refusal; one time in four the stale signature of the original header is kept instead
+		stale := rapid.IntRange(0, 3).Draw(t, "staleSignature") == 0
+		rawInput := rapid.Bool().Draw(t, "rawPayloadInput")
+		resignable := false // only the header defects the statement names are re-signed: missing alg, non-boolean b64
+		hdr := func(s string) string {
+			if stale || !resignable {
+				return asm.B64([]byte(s)) + "." + parts[1] + "." + parts[2]
+			}
+			in := asm.B64([]byte(s)) + "." + parts[1]
+			if rawInput {
+				in = asm.B64([]byte(s)) + "." + string(payload)
+			}
+			return asm.B64([]byte(s)) + "." + parts[1] + "." + asm.B64(k.Sign([]byte(in)))
+		}
 		var compact, note string
 		switch rapid.IntRange(0, 12).Draw(t, "junkKind") {
 		case 0:
@@ -602,11 +618,13 @@ func TestMalformedCompact(t *testing.T) {
 		case 5:
 			compact, note = hdr(rapid.SampledFrom([]string{`[]`, `"alg"`, `1`, `null`, `{`, ``, `{"alg":"ES256"`, `true`}).Draw(t, "nonObject")), "header is not a JSON object"
 		case 6:
+			resignable = true
 			compact, note = hdr(`{"kid":"x"}`), "header without alg"
 		case 7:
 			compact, note = hdr(rapid.SampledFrom([]string{`{"alg":1}`, `{"alg":null}`, `{"alg":["ES256"]}`, `{"alg":{}}`, `{"alg":true}`}).Draw(t, "algType")), "non-string alg"
 		case 8:
-			h := fmt.Sprintf(`{"alg":%q,"b64":%s}`, kt.Alg(), rapid.SampledFrom([]string{`"false"`, `0`, `null`, `[]`, `{}`, `"true"`, `1`}).Draw(t, "b64val"))
+			resignable = true
+			h := fmt.Sprintf(`{"alg":%q,"b64":%s}`, kt.Alg(), rapid.SampledFrom([]string{`"false"`, `0`, `null`, `[]`, `{}`, `"true"`, `1`, `""`, `0.0`, `[true]`, `{"b64":true}`}).Draw(t, "b64val"))
 			compact, note = hdr(h), "non-boolean b64 header"
 		case 9:
 			compact, note = parts[0]+".."+parts[2], "empty payload segment"
